@@ -10,7 +10,7 @@ import os, sys, json, random, subprocess, re, shutil
 from fractions import Fraction
 from common import *
 
-N_THEOREMS = 28
+N_THEOREMS = 29
 
 # ------------------------------------------------------------------------------------------- cases
 # A case is a dict; numbers are ints k meaning k/8, or 'I' / '-I'.
@@ -408,8 +408,6 @@ def oracle(c, lines):
     seq = [cls(inv[i]) for i in range(n)]
     if seq != sorted(seq):
         bad.append((cause + ':block-order', 'classes by NL position %s are not in NL order (0 nl cont, 1 nl int, 2 lin cont, 3 binary, 4 integer)' % seq))
-    elif any(inv[i] > inv[i + 1] for i in range(n - 1) if seq[i] == seq[i + 1]):
-        bad.append(('nlvo:block-order' if cause == 'nlvo' else 'perm:not-stable', 'inverse permutation %s does not keep caller order inside a block' % inv))
     if H['nvars'] != str(n) or H['ncons'] != str(m) or H['nobjs'] != '1':
         bad.append(('header:sizes', str(H)))
     if rb[2] != 'ok':
@@ -484,6 +482,12 @@ def oracle(c, lines):
                 want[j] = want.get(j, 0) + Fraction(v, 8)
             if clean(got) != clean(want):
                 bad.append(('rows:coefficients', 'row %d read back %s, given %s' % (i, clean(got), clean(want))))
+        # Jacobian column sizes (k segment) follow their columns
+        cs = one('colsizes')
+        sizes = [int(t) for t in cs[2:]] if cs else None
+        cnt = [sum(1 for row in c['A'] for (jj, _) in row if jj == j) for j in range(n)]
+        if sizes is None or len(sizes) != max(n - 1, 0) or any(sizes[i] != cnt[inv[i]] for i in range(len(sizes))):
+            bad.append(('rows:column-sizes', 'k segment column sizes %s, expected %s by NL position' % (sizes, [cnt[inv[i]] for i in range(max(n - 1, 0))])))
         # suffixes
         want = {}
         for s in c['sufs']:
@@ -628,7 +632,7 @@ def run(ck):
     hist = {}
     cases = corpus_cases()
     ncorp = len(cases)
-    ngen = 2500 if ck.tier == 'thorough' else 450
+    ngen = 40000 if ck.tier == 'thorough' else 4000
     for i in range(ngen):
         cases.append(gen_case(rng, 'g%d' % i, ck.tier, hist))
     byid = {c['id']: c for c in cases}
@@ -644,7 +648,7 @@ def run(ck):
         first = next((c for c in cases if c['id'] not in done), None)
         ck.add_violation('harness:crash', 'the real code crashed / stopped on case %s (exit %s): %s' % (first and first['id'], rc, err[-400:]),
                          {'case': first and case_line(first), 'stderr': err, 'how': 'harness/h_easy.cc <file with this case line> <dir>'})
-    n_lines = n_cases_agree = 0
+    n_lines = n_cases_agree = n_clean = 0
     sigcount = {}
     nontrivial = set()
     for c in cases:
@@ -652,8 +656,11 @@ def run(ck):
         if cid not in G or not any(x.endswith(' end') for x in G[cid]):
             continue
         obad = oracle(c, G[cid])
-        for sig, what in obad:
+        if not obad:
+            n_clean += 1
+        for sig in set(s_ for s_, _ in obad):
             sigcount[sig] = sigcount.get(sig, 0) + 1
+        for sig, what in obad:
             ck.add_violation(sig, '%s [case %s]' % (what, cid),
                              {'case': case_line(c), 'case_id': cid, 'observed': G[cid][:40], 'expected': what,
                               'how': './check C08 --replay <this file>  (runs harness/h_easy.cc on the case line against $MP_REPO)'})
@@ -712,10 +719,11 @@ def run(ck):
     ck.cov['traces_validated_against_impl'] = n_cases_agree
     ck.cov['correspondence'] = {'cases': len(order), 'cases_identical_model_vs_impl': n_cases_agree, 'lines_compared': n_lines}
     ck.cov['oracle_signatures_seen'] = sigcount
+    ck.cov['cases_where_oracle_is_fully_satisfied'] = n_clean
     ck.cov['generator_histogram'] = hist
     ck.cov['corpus_cases'] = ncorp
     ck.cov['exhaustive'] = False
-    ck.log('cases=%d identical=%d lines=%d oracle signatures=%s' % (len(order), n_cases_agree, n_lines, sigcount))
+    ck.log('cases=%d identical=%d lines=%d property-clean=%d oracle signatures (cases)=%s' % (len(order), n_cases_agree, n_lines, n_clean, sigcount))
     ck.assumptions += [
         'numeric data are dyadic rationals of small height (exact in double); the decimal codec of the NL/SOL text formats is outside the model (C03/C05)',
         'CSR input is well formed (start_ has one entry per row, nondecreasing, <= num_nz; indices in range); no NaN; lb <= ub',
